@@ -221,7 +221,8 @@ func runLatchCase(record bool, script []int) {
 
 func stageLatch(corpusOnly bool) {
 	if corpusOnly {
-		// the listed finding, deterministically, in both directions
+		// regression for the fixed finding ssrc-latch-before-auth (/repo e33be43), both directions:
+		// an SSRC-altered copy of the first packet arrives first; all genuine packets must get through
 		runLatchCase(false, []int{1, 0, 0, 0, 0, 0})
 		runLatchCase(true, []int{1, 0, 0, 0, 0, 0})
 		return
@@ -235,7 +236,7 @@ func stageLatch(corpusOnly bool) {
 			sc[j] = ctx.Rng.Intn(3)
 		}
 		if sc[0] == 1 {
-			sc[0] = 2 // the poisoning shape is the corpus case
+			sc[0] = hx.Pick(ctx.Rng, 1, 2) // the poisoning shape is also the corpus case
 		}
 		scripts = append(scripts, sc)
 	}
